@@ -165,12 +165,15 @@ fn probe_locked(post: &Ledger, position: &Pubkey, token_account: &Pubkey, salt: 
             if let Some(a) = thawed.accts.get_mut(token_account) {
                 let mut od = (*a.data).clone();
                 od[108] = 1;
+                // ... and carries no delegate: an approval given before the lock (it cannot be revoked on a frozen account)
+                // does not take the holder's own right to add liquidity away
+                od[72..76].copy_from_slice(&0u32.to_le_bytes());
                 a.data = std::rc::Rc::new(od);
             }
             let r_thawed = crate::rt::exec_tx_simple(&mut thawed, &crate::rt::Tx { ixs: vec![ixn] });
             cov.eval(format!("locked_probe|{}|frozen_ok=false|thawed_ok={}", what, r_thawed.ok));
             if r_thawed.ok {
-                out.push(viol("locked_position_operation_refused", idx, format!("{} is refused ({:?}) on the locked position {} although the same deposit goes through when its token account is not frozen: adding liquidity must stay possible", what, r_frozen.custom(), position)));
+                out.push(viol("locked_position_operation_refused", idx, format!("{} is refused ({:?}) on the locked position {} although the same deposit goes through when its token account is not frozen (and carries no delegate): adding liquidity must stay possible", what, r_frozen.custom(), position)));
                 return;
             }
         }
@@ -187,12 +190,15 @@ fn probe_locked(post: &Ledger, position: &Pubkey, token_account: &Pubkey, salt: 
             if let Some(a) = thawed.accts.get_mut(token_account) {
                 let mut od = (*a.data).clone();
                 od[108] = 1;
+                // ... and carries no delegate: an approval given before the lock (it cannot be revoked on a frozen account)
+                // does not take the holder's own right to add liquidity away
+                od[72..76].copy_from_slice(&0u32.to_le_bytes());
                 a.data = std::rc::Rc::new(od);
             }
             let r_thawed = crate::rt::exec_tx_simple(&mut thawed, &crate::rt::Tx { ixs: vec![crate::ix::increase_liquidity_v2(&la, small, u64::MAX, u64::MAX)] });
             cov.eval(format!("locked_probe|small deposit|frozen_ok=false|thawed_ok={}", r_thawed.ok));
             if r_thawed.ok {
-                out.push(viol("locked_position_operation_refused", idx, format!("increase_liquidity_v2 of {} is refused ({:?}) on the locked position {} although the same deposit goes through when its token account is not frozen: adding liquidity must stay possible", small, r_frozen.custom(), position)));
+                out.push(viol("locked_position_operation_refused", idx, format!("increase_liquidity_v2 of {} is refused ({:?}) on the locked position {} although the same deposit goes through when its token account is not frozen (and carries no delegate): adding liquidity must stay possible", small, r_frozen.custom(), position)));
                 return;
             }
         } else {
